@@ -125,7 +125,8 @@ def loader(chk, prog, names):
     EM = prog.adt_path("rustzx_core", "Emulator")
     FL = prog.fn_path("rustzx_core", "fastload::tap::fast_load_tap")
     H = ("param", "H", 0)
-    w = Walker(prog, loop_bound=3, max_paths=4000)
+    deep = getattr(chk, 'tier', 'quick') == 'thorough'
+    w = Walker(prog, loop_bound=6 if deep else 3, max_paths=40000 if deep else 4000)     # byte loop depth
     NBs = [p for p in prog.fns if "ZXTape<A> as" in p and p.endswith("::next_block")]
     NBBs = [p for p in prog.fns if "ZXTape<A> as" in p and p.endswith("::next_block_byte")]
     WI = names.bus("write_internal")
